@@ -504,6 +504,19 @@ def run(run):
         if not run.mine(i):
             continue
         fields = [{'f%d' % j: rand_type()} for j in range(rng.randrange(1, 7))]
+        if rng.random() < 0.35:
+            # a definition entry is a dict: one with several items is several
+            # fields in insertion order, an empty one is no field at all
+            grouped, j = [], 0
+            while j < len(fields):
+                step = rng.randrange(0, 4)
+                entry = {}
+                for f in fields[j:j + step]:
+                    entry.update(f)
+                grouped.append(entry)
+                j += step
+            fields = grouped
+            run.count('programs_grouped_entries')
         if rng.random() < 0.3:
             fields.append({'tail': T.TrailingByteArray})
         pid = rng.choice((0, 1, 0x7F, 0x80, 0x3FFF, 0x4000))
@@ -524,6 +537,112 @@ def run(run):
         roundtrip(run, K, ctx, attrs, cmps, 'program %d: %r' % (i, fields),
                   PacketBuffer)
     run.extra['programs'] = run.counters.get('programs', 0)
+
+    # ---- relay: a packet *received* under one version, re-sent under another -
+    # The reader of the connection produces the packet object; a relay gives
+    # that very object another context and writes it.  The id on the wire must
+    # be the one registered for the context it is written under, and the
+    # fields must survive (classes whose layout is the same in both versions).
+    import socket
+    from minecraft.networking.connection import Connection, PlayingReactor
+    relay_pairs = []
+    sup = list(minecraft.SUPPORTED_PROTOCOL_VERSIONS)
+    for k in range(400 if thorough else 40):
+        a_, b_ = rng.sample(sup, 2)
+        relay_pairs.append((a_, b_))
+    for k, (pva, pvb) in enumerate(relay_pairs):
+        if not run.mine(k):
+            continue
+        ctxa = ConnectionContext(protocol_version=pva)
+        ctxb = ConnectionContext(protocol_version=pvb)
+        both = [K for K in clientbound.play.get_packets(ctxa)
+                if K in clientbound.play.get_packets(ctxb)
+                and not is_custom(K, Packet)
+                and repr(K.get_definition(ctxa)) == repr(K.get_definition(ctxb))
+                and K.get_id(ctxa) != K.get_id(ctxb)]
+        both.sort(key=lambda K: K.__qualname__)
+        if not both:
+            continue
+        conn = Connection('127.0.0.1', 1, allowed_versions={pva})
+        conn.context.protocol_version = pva
+        reactor = PlayingReactor(conn)
+        # (where two classes share an id the reader's table holds one of
+        # them: that is C06's subject and recorded there, not a codec matter)
+        both = [K for K in both
+                if reactor.clientbound_packets.get(K.get_id(ctxa)) is K]
+        # (the sound pitch is one type object with two encodings, byte-scaled
+        # before protocol 204: same-looking layout, different value domain)
+        if min(pva, pvb) < 204 <= max(pva, pvb):
+            both = [K for K in both if K.__name__ != 'SoundEffectPacket']
+        for K in rng.sample(both, min(len(both), 6)):
+            attrs, cmps = {}, []
+            for field in K.get_definition(ctxa):
+                for fname, ftype in field.items():
+                    v, c = G.value(ftype, ctxa)
+                    attrs[fname] = v
+                    cmps.append((fname, c))
+            w = {'class': K.__name__, 'received_under': pva,
+                 'written_under': pvb, 'fields': attrs}
+            sa, sb_ = socket.socketpair()
+            try:
+                src = K(ctxa, **attrs)
+                src.write(sa)
+                stream = sb_.makefile('rb', 0)
+                got = reactor.read_packet(stream, timeout=5)
+                stream.close()
+            except Exception as e:
+                run.violation('relay/read-raised/%s' % K.__name__,
+                              'the connection reader raised on a packet '
+                              'written by the same class', dict(w,
+                                                                error=repr(e)))
+                continue
+            finally:
+                sa.close()
+                sb_.close()
+            if type(got) is not K:
+                run.violation('relay/class/%s' % K.__name__, 'the reader '
+                              'produced another class', dict(w,
+                                                             got=repr(got)))
+                continue
+            how = rng.choice(('new-context', 'reassigned-version'))
+            if how == 'new-context':
+                got.context = ctxb
+            else:
+                conn.context.protocol_version = pvb
+            try:
+                out = PacketBuffer()
+                got.write(out)
+                frame = out.get_writable()
+                length, pos = rv.decode(frame, 0)
+                pid, pos2 = rv.decode(frame, pos)
+            except Exception as e:
+                run.violation('relay/write-raised/%s' % K.__name__,
+                              're-writing a received packet raised',
+                              dict(w, error=repr(e)))
+                conn.context.protocol_version = pva
+                continue
+            conn.context.protocol_version = pva
+            run.count('relayed_packets')
+            run.case(('relay', pva, pvb, K.__name__, repr(attrs)))
+            if pid != K.get_id(ctxb):
+                run.violation('relay/id/%s' % how, 'a received packet written '
+                              'under another version carries the id of the '
+                              'version it was received under',
+                              dict(w, wire_id=pid, id_for_written=K.get_id(ctxb),
+                                   id_for_received=K.get_id(ctxa), how=how))
+                continue
+            body = PacketBuffer()
+            body.send(frame[pos2:])
+            body.reset_cursor()
+            try:
+                q = K(context=ctxb)
+                q.read(body)
+                bad = [f for f, c in cmps if not c(attrs[f], getattr(q, f))]
+            except Exception as e:
+                bad = [repr(e)]
+            if bad or body.read():
+                run.violation('relay/fields/%s' % K.__name__, 'fields of a '
+                              'relayed packet differ', dict(w, fields_bad=bad))
 
     # ---- layouts must not depend on process history ---------------------------
     if run.shard == 0:
@@ -558,5 +677,6 @@ def run(run):
     run.require('roundtrips', 2000)
     run.require('classes', 40)
     run.require('programs', 50)
+    run.require('relayed_packets', 10)
     if run.shard == 0:
         run.require('layout_snapshots_compared', 5000)
